@@ -7,6 +7,7 @@ posting sequence is checked by the harness on the reported numbers.
 -/
 import Pumpkin.Spec.Basic
 import Pumpkin.Check.Oracle
+import Pumpkin.Model.PropagationCompile
 
 namespace Pumpkin.C12
 
@@ -40,5 +41,30 @@ theorem more_constraints_fewer_solutions (m : Model) (c : Cons) (a : List Int)
     (h : (Model.mk m.doms (m.cons ++ [c])).sat a = true) : m.sat a = true := by
   simp only [Model.sat, List.all_append, Bool.and_eq_true] at *
   exact ⟨h.1, h.2.1⟩
+
+
+/-- **The modelled root state** (`Pg.rootFix`: the constraints posted one after the other, each
+decomposed into propagators as `pumpkin_solver::constraints` does and propagated to the fixpoint;
+tied to the real solver's root domains by exact correspondence on every run) **contains the value
+of every variable in every solution of the model** — hence so do the bounds read off it — for every
+model built from the modelled constraint kinds. -/
+theorem root_state_encloses (m : Model) (hw : ∀ c ∈ m.cons, Pg.consWf m.doms.length c) (d : Pg.Doms)
+    (hr : Pg.rootFix m.doms m.cons = some (some d)) (a : List Int) (ha : m.sat a = true) (x : Nat)
+    (hx : x < m.doms.length) : val a x ∈ Pg.dom d x ∧ Pg.lb d (View.ofVar x) ≤ val a x ∧ val a x ≤ Pg.ub d (View.ofVar x) := by
+  have hin := Pg.rootFix_encloses m hw d hr a ((mem_solutions m a).2 ha)
+  have hlen : d.length = m.doms.length := by
+    have h1 := inDoms_length hin
+    simp only [Model.sat, Bool.and_eq_true] at ha
+    have h2 := inDoms_length ha.1
+    omega
+  have hxd : x < d.length := by omega
+  refine ⟨AtomRup.val_mem_of_inDoms hin hxd, ?_, ?_⟩
+  · have := Pg.lb_le hin (w := View.ofVar x) hxd
+    simpa [View.ofVar, View.eval] using this
+  · have := Pg.le_ub hin (w := View.ofVar x) hxd
+    simpa [View.ofVar, View.eval] using this
+
+example : Pg.rootFix [[0, 1, 2, 3], [0, 1, 2, 3]] [Cons.linLe [⟨1, 0, 0⟩, ⟨1, 0, 1⟩] 1, Cons.linNe [⟨1, 0, 0⟩] 0]
+    = some (some [[1], [0]]) := by decide
 
 end Pumpkin.C12
